@@ -12,6 +12,7 @@
 //! Mutants caught (tools/mutant_run.sh E <patch> C37 quick):
 //!   mutants/C37-no-certid-check.diff   (cert_id_matches_signer always true)
 //!   mutants/C37-no-sig-check.diff      (OCSP response signature not verified)
+//!   /tmp/seed-C37/OUT/patch.diff       (independently seeded: 'any entry matches' instead of per-entry CertID filter; caught by multi-*)
 
 use std::sync::Mutex;
 
@@ -37,6 +38,7 @@ struct World {
     h: Hierarchy,
     responder: Cert,
     sibling: Cert,
+    sibling2: Cert,
     /// another PKI whose end-entity certificate has the same serial number as ours
     foreign: Hierarchy,
     foreign_responder: Cert,
@@ -52,6 +54,7 @@ fn world(kind: KeyKind) -> World {
     let inter = h.ee_issuer().cloned().unwrap_or_else(|| kit::ev::machinery("C37: no issuer"));
     let responder = pki::issue(&CertSpec::ocsp_responder("c37 responder"), &pki::gen_key(kind, "c37-resp"), Some(&inter));
     let sibling = pki::issue(&CertSpec::ee("c37 sibling"), &pki::gen_key(kind, "c37-sib"), Some(&inter));
+    let sibling2 = pki::issue(&CertSpec::ee("c37 sibling 2"), &pki::gen_key(kind, "c37-sib2"), Some(&inter));
     let mut fs = CertSpec::ee("c37 foreign signer");
     fs.serial = h.ee.spec.serial;
     let foreign = Hierarchy::build("c37-foreign", 2, kind, fs);
@@ -63,7 +66,7 @@ fn world(kind: KeyKind) -> World {
     let h1 = Hierarchy::build("c37-d1", 1, kind, CertSpec::ee("c37 d1 signer"));
     let root1 = h1.root.clone().unwrap_or_else(|| kit::ev::machinery("C37: no root1"));
     let responder1 = pki::issue(&CertSpec::ocsp_responder("c37 d1 responder"), &pki::gen_key(kind, "c37-resp1"), Some(&root1));
-    World { now, h, responder, sibling, foreign, foreign_responder, selfmade_responder, h1, responder1 }
+    World { now, h, responder, sibling, sibling2, foreign, foreign_responder, selfmade_responder, h1, responder1 }
 }
 
 #[derive(Clone, Copy, PartialEq, Eq, Debug)]
@@ -100,6 +103,10 @@ const SCENARIOS: &[(&str, Signing, Expect)] = &[
     ("right-certid-self-made-responder", Signing::D2, Expect::SameAsBaseline),
     ("revoked-expired-response", Signing::D2, Expect::Open),
     ("good-expired-response", Signing::D2, Expect::Open),
+    ("multi-revoked-signer+good-sibling", Signing::D2, Expect::NotValid),
+    ("multi-good-sibling+revoked-signer", Signing::D2, Expect::NotValid),
+    ("multi-good-signer+revoked-sibling", Signing::D2, Expect::SameAsBaseline),
+    ("multi-revoked-sibling+good-sibling2", Signing::D2, Expect::SameAsBaseline),
     ("revoked-issuer-is-anchor-not-in-x5chain", Signing::D1Leaf, Expect::NotValid),
     ("revoked-issuer-root-in-x5chain", Signing::D1WithRoot, Expect::NotValid),
 ];
@@ -122,6 +129,19 @@ fn response(w: &World, scenario: &str) -> Vec<u8> {
         "revoked-kit" => kit_resp(w, &w.h.ee, inter, revoked(), &w.responder, vec![&w.responder], false, false),
         "revoked-kit-responder-by-key" => kit_resp(w, &w.h.ee, inter, revoked(), &w.responder, vec![&w.responder], true, false),
         "revoked-signed-by-issuing-ca" => kit_resp(w, &w.h.ee, inter, revoked(), inter, vec![inter], false, false),
+        "multi-revoked-signer+good-sibling" | "multi-good-sibling+revoked-signer" | "multi-good-signer+revoked-sibling" | "multi-revoked-sibling+good-sibling2" => {
+            let (this, next) = (w.now - 3600, w.now + 7 * DAY);
+            let (main_subject, main_status, other, other_status, other_first): (&Cert, OcspStatus, &Cert, OcspStatus, bool) = match scenario {
+                "multi-revoked-signer+good-sibling" => (&w.h.ee, revoked(), &w.sibling, OcspStatus::Good, false),
+                "multi-good-sibling+revoked-signer" => (&w.h.ee, revoked(), &w.sibling, OcspStatus::Good, true),
+                "multi-good-signer+revoked-sibling" => (&w.h.ee, OcspStatus::Good, &w.sibling, revoked(), false),
+                _ => (&w.sibling, revoked(), &w.sibling2, OcspStatus::Good, false),
+            };
+            pki::build_ocsp_multi(
+                &OcspOpts { subject: main_subject, subject_issuer: inter, status: main_status, this_update: this, next_update: Some(next), produced_at: this, responder: &w.responder, embed: vec![&w.responder], by_key: false },
+                &[(other, inter, other_status, other_first)],
+            )
+        }
         "sibling-certificate-revoked" => kit_resp(w, &w.sibling, inter, revoked(), &w.responder, vec![&w.responder], false, false),
         "other-ca-same-serial-revoked" => kit_resp(w, &w.foreign.ee, finter, revoked(), &w.foreign_responder, vec![&w.foreign_responder, finter], false, false),
         "other-ca-certid-signed-by-our-responder" => kit_resp(w, &w.foreign.ee, finter, revoked(), &w.responder, vec![&w.responder], false, false),
@@ -312,7 +332,7 @@ fn sweep_one(run: &Run, w: &World, seed: &Seed, off: usize, mask: u8, stats: &Mu
 }
 
 pub fn run(run: &Run, replay: Option<&Value>) {
-    run.rule("menu: 15 OCSP scenarios (see SCENARIOS) stapled through Signer::ocsp_val, and those of them that make sense as a c2pa.certificate-status assertion; \
+    run.rule("menu: 19 OCSP scenarios (4 of them multi-entry responses mixing the signing certificate with sibling certificates) (see SCENARIOS) stapled through Signer::ocsp_val, and those of them that make sense as a c2pa.certificate-status assertion; \
               sweep: a validly signed 'revoked' response stapled in the asset with EVERY byte xor-ed in turn (quick 0x01; thorough 0x01, 0x80, 0xFF). \
               non-trivial = menu cases that were read back, and sweep cases whose byte lies in tbsResponseData / signatureAlgorithm / signature / responder public key.");
     run.assume("reader trusts the signing roots (without trust anchors the SDK cannot authorise any responder and ignores all evidence); no time-stamp, so the signing time is 'now'");
@@ -353,7 +373,7 @@ pub fn run(run: &Run, replay: Option<&Value>) {
         let mut menu: Vec<(&str, Signing, Expect, Carrier)> = vec![];
         for (n, s, e) in SCENARIOS {
             menu.push((n, *s, *e, Carrier::Stapled));
-            if matches!(*n, "good-cli" | "revoked-kit" | "revoked-cli" | "sibling-certificate-revoked" | "right-certid-foreign-responder" | "other-ca-same-serial-revoked") {
+            if matches!(*n, "good-cli" | "revoked-kit" | "revoked-cli" | "sibling-certificate-revoked" | "right-certid-foreign-responder" | "other-ca-same-serial-revoked") || n.starts_with("multi-") {
                 menu.push((n, *s, *e, Carrier::Assertion));
             }
         }
